@@ -242,7 +242,7 @@ def make_bcd_cases(rng, n_cases):
                                                           b(cfg["fixpoint"]), b(cfg["fit_intercept"]), M.p, n))
         wi = "None" if w_init is None else f"(Some {vq(w_init)})"
         xi = "None" if Xw_init is None else f"(Some {vq(Xw_init)})"
-        expr = f"bsolve {cfgc} (mock_kernels_g {M.coq()} {M.p}) {wi} {xi}"
+        expr = f"bsolve {cfgc} (mock_kernels_g {M.coq()} {M.p}) {M.p} {wi} {xi}"
         if obs["err"]:
             o = "{| ob_err := true; ob_w := []; ob_Xw := []; ob_obj := []; ob_stop := XBad; ob_iters := 0; ob_epochs := 0; ob_accepts := 0 |}"
             has_buf = False
@@ -717,6 +717,99 @@ def make_pn_e2e_cases(rng, n):
     return cases, dist
 
 
+# ------------------------------------------------------------------ GroupBCD end to end (regenerated kernels)
+BCD_E2E_IMPORTS = ["Gen.ProxFuncs", "Gen.PenBlock", "Gen.SparseOps", "Gen.DfGroup", "Gen.KernCD", "Gen.KernBCD", "Skel.AndersonCD",
+                   "Skel.Generic", "Skel.MockACD", "Skel.GroupBCD", "Skel.Anderson", "Skel.CorrSolvers"]
+
+
+def run_real_bcd_e2e(X, y, pen, grp_ptr, grp_indices, cfg, w_init, Xw_init, sparse_X):
+    """the REAL GroupBCD._solve with the real compiled block kernels, QuadraticGroup datafit, group penalty and the real
+    AndersonAcceleration; replaced: np.argpartition (deterministic selection) and np.linalg.solve inside the accelerator"""
+    import warnings
+    import skglm.solvers.group_bcd as gb
+    import skglm.utils.anderson as an
+    from skglm.datafits import QuadraticGroup
+    from skglm.utils.jit_compilation import compiled_clone
+    saved, saved_an = np.argpartition, an.np
+    try:
+        np.argpartition = _ha.NpProxy.argpartition
+        an.np = AndersonNp()
+        solver = gb.GroupBCD(max_iter=cfg["max_iter"], max_epochs=cfg["max_epochs"], p0=cfg["p0"], tol=cfg["tol"],
+                             ws_strategy="fixpoint" if cfg["fixpoint"] else "subdiff", fit_intercept=cfg["fit_intercept"])
+        Xs = sparse.csc_matrix(X) if sparse_X else X
+        df = compiled_clone(QuadraticGroup(grp_ptr, grp_indices))
+        lip = df.get_lipschitz_sparse(Xs.data, Xs.indptr, Xs.indices, y) if sparse_X else df.get_lipschitz(X, y)
+        w0 = None if w_init is None else np.array(w_init, dtype=float)
+        x0 = None if Xw_init is None else np.array(Xw_init, dtype=float)
+        try:
+            with warnings.catch_warnings():
+                warnings.simplefilter("ignore")
+                w, objs, stop = solver._solve(Xs, y, df, compiled_clone(pen), w0, x0)
+        except (ValueError, IndexError, TypeError, ZeroDivisionError, UnboundLocalError) as e:
+            return dict(err=True, exc=repr(e)), lip
+        if not np.all(np.isfinite(w)):
+            return dict(err=True, exc="non-finite w"), lip
+        return dict(err=False, w=list(map(float, w)), obj=list(map(float, objs)), stop=float(stop)), lip
+    finally:
+        np.argpartition, an.np = saved, saved_an
+
+
+def make_bcd_e2e_cases(rng, n):
+    import skglm.penalties.block_separable as bs
+    sig = kernels.gen_sig()
+    cases, dist = [], dict(err=0, iters={}, intercept=0, fixpoint=0, warm=0, sparse=0, shuffled_groups=0)
+    vals = [-2.0, -1.0, -0.5, 0.0, 0.0, 0.5, 1.0, 2.0]
+    for k in range(n):
+        ns, p = 4, rng.randint(2, 5)
+        X = np.asfortranarray(np.array([[rng.choice([-1.0, 0.0, 0.0, 1.0, 0.5, 2.0]) for _ in range(p)] for _ in range(ns)]))
+        perm = list(range(p))
+        shuffled = rng.random() < 0.5
+        if shuffled:
+            rng.shuffle(perm)
+        ng = rng.randint(1, min(3, p))
+        cuts = sorted(rng.sample(range(1, p), ng - 1)) if ng > 1 else []
+        grp_ptr = np.array([0] + cuts + [p], dtype=np.int32)
+        grp_indices = np.array(perm, dtype=np.int32)
+        if rng.random() < 0.2:
+            g0 = rng.randrange(ng)
+            X[:, grp_indices[grp_ptr[g0]:grp_ptr[g0 + 1]]] = 0.0          # all-zero group
+        y = np.array([rng.choice([-3.0, -2.0, -1.0, -0.5, 0.5, 1.0, 2.0, 3.0]) for _ in range(ns)])
+        fi, fixp = rng.random() < 0.5, rng.random() < 0.5
+        a = rng.choice([0.125, 0.25, 0.5, 1.0])
+        wg = np.array([rng.choice([0.0, 0.5, 1.0, 2.0]) for _ in range(ng)])
+        pen = bs.WeightedGroupL2(a, wg, grp_ptr, grp_indices)
+        fd = dict(alpha=q(a), weights=vq(wg), grp_ptr=vz(grp_ptr), grp_indices=vz(grp_indices), positive="false")
+        cfg = dict(max_iter=rng.choice([0, 1, 2, 3]), max_epochs=rng.choice([1, 2, 7, 8, 11, 12]), p0=rng.choice([1, 2, 10]),
+                   tol=rng.choice([2.0 ** -12, 2.0 ** -6, 2.0 ** -3, 0.5]), fixpoint=fixp, fit_intercept=fi)
+        w_init = Xw_init = None
+        if rng.random() < 0.4:
+            w_init = [rng.choice(vals) for _ in range(p + fi)]
+            Xw_init = list(X @ np.array(w_init[:p]) + (w_init[-1] if fi else 0.0))
+        # dense only: on CSC input QuadraticGroup.get_lipschitz_sparse is a power method started from a RANDOM vector, so the
+        # constants of a run cannot be reproduced (1e-7 noise decides ties between duplicated groups); the sparse kernels are tied
+        # by the kernel correspondence and the sparse = dense theorem instead
+        sp = False
+        obs, lip = run_real_bcd_e2e(X, y, pen, grp_ptr, grp_indices, cfg, w_init, Xw_init, sp)
+
+        def meth(m):
+            return f"(@WeightedGroupL2_{m} Q QNumT {kernels.fields_of(sig, 'WeightedGroupL2_' + m, fd)})"
+        wi = "None" if w_init is None else f"(Some {vq(w_init)})"
+        xi = "None" if Xw_init is None else f"(Some {vq(Xw_init)})"
+        expr = (f"bcd_case {mat(X)} {vq(y)} {vq(lip)} {vz(grp_ptr)} {vz(grp_indices)} {cfg['max_iter']} {cfg['max_epochs']} {z(cfg['p0'])} "
+                f"{q(cfg['tol'])} {b(fi)} {b(fixp)} {meth('subdiff_distance')} {meth('prox_1group')} {meth('value')} "
+                f"{meth('generalized_support')} {wi} {xi}")
+        if obs["err"]:
+            o = "{| or_err := true; or_w := []; or_obj := []; or_stop := XBad |}"
+            dist["err"] += 1
+        else:
+            o = "{| or_err := false; or_w := %s; or_obj := %s; or_stop := %s |}" % (vq(obs["w"]), lst([xq(v) for v in obs["obj"]]), xq(obs["stop"]))
+            dist["iters"][len(obs["obj"])] = dist["iters"].get(len(obs["obj"]), 0) + 1
+        dist["intercept"] += fi; dist["fixpoint"] += fixp; dist["warm"] += w_init is not None; dist["sparse"] += sp; dist["shuffled_groups"] += shuffled
+        cases.append((f"bcd_e2e#{k} grp_ptr={grp_ptr.tolist()} grp_indices={grp_indices.tolist()} wg={wg.tolist()} a={a} cfg={cfg} sparse={sp} "
+                      f"X={X.tolist()} y={y.tolist()} w_init={w_init} -> {obs}", expr, "chk_bcd_e2e_sp" if sp else "chk_bcd_e2e", o))
+    return cases, dist
+
+
 def run_e2e(cases, imports, tag, shard):
     """End-to-end float correspondences (GramCD, FISTA) run on non-dyadic numbers.  Where exact arithmetic has a tie (equal
     scores under np.argmax, an extrapolated objective equal to the current one, a score equal to the tolerance) binary64 has
@@ -733,13 +826,14 @@ def run_e2e(cases, imports, tag, shard):
         for lab in r["bad"]:
             _, expr, chk, exp = by[lab]
             vs = [expr]
-            frag = [f for pre, f in (("gram_case_aa ", "frag_gram"), ("fista_case ", "frag_fista"), ("pn_case ", "frag_pn")) if expr.startswith(pre)][0]
-            for inst in ("QNumLoose", "QNumTight"):
+            frag = [f for pre, f in (("gram_case_aa ", "frag_gram"), ("fista_case ", "frag_fista"), ("pn_case ", "frag_pn"), ("bcd_case ", "frag_bcd")) if expr.startswith(pre)][0]
+            bounded = expr.startswith("bcd_case ")           # long runs use the bounded-precision instances
+            for inst in (("QNumTLoose", "QNumTTight") if bounded else ("QNumLoose", "QNumTight")):
                 e = expr
-                for pre in ("gram_case_aa", "fista_case", "pn_case"):
+                for pre in ("gram_case_aa", "fista_case", "pn_case", "bcd_case"):
                     if e.startswith(pre + " "):
                         e = f"{pre}_N {inst} " + e[len(pre) + 1:]
-                vs.append(e.replace(" Q _ ", f" Q {inst} "))
+                vs.append(e.replace(" Q QNumT ", f" Q {inst} ") if bounded else e.replace(" Q _ ", f" Q {inst} "))
             near.append((lab, "(" + ", ".join(vs) + ")", frag, exp))
         rn = tvlib.run_cases(near, imports, tag + "x", shard=2, jobs=16)
         robust = set(rn["bad"])
@@ -774,10 +868,13 @@ def solver_corr(tier, rng, tag):
     pe, pedist = make_pn_e2e_cases(rng, 150 if tier == "quick" else 1500)
     rpe = run_e2e(pe, PN_E2E_IMPORTS, tag + "e", 8)
     pedist["decision_fragile"] = [x[:300] for x in rpe["fragile"]]
-    allc = cases + bc + pc + fc + ac + mc + gc_ + pe
-    return dict(cases=len(allc), bad=r["bad"] + rb["bad"] + rp["bad"] + rf["bad"] + ra["bad"] + rm["bad"] + rg["bad"] + rpe["bad"],
-                errors=r["errors"] + rb["errors"] + rp["errors"] + rf["errors"] + ra["errors"] + rm["errors"] + rg["errors"] + rpe["errors"],
-                distribution=dict(gramcd_end_to_end=dist, groupbcd_mock_traces=bdist, proxnewton_mock_traces=pdist, fista_end_to_end=fdist, multitaskbcd_mock_traces=mdist, groupproxnewton_mock_traces=gdist_, proxnewton_end_to_end=pedist),
+    be, bedist = make_bcd_e2e_cases(rng, 100 if tier == "quick" else 1000)
+    rbe = run_e2e(be, BCD_E2E_IMPORTS, tag + "h", 8)
+    bedist["decision_fragile"] = [x[:300] for x in rbe["fragile"]]
+    allc = cases + bc + pc + fc + ac + mc + gc_ + pe + be
+    return dict(cases=len(allc), bad=r["bad"] + rb["bad"] + rp["bad"] + rf["bad"] + ra["bad"] + rm["bad"] + rg["bad"] + rpe["bad"] + rbe["bad"],
+                errors=r["errors"] + rb["errors"] + rp["errors"] + rf["errors"] + ra["errors"] + rm["errors"] + rg["errors"] + rpe["errors"] + rbe["errors"],
+                distribution=dict(gramcd_end_to_end=dist, groupbcd_mock_traces=bdist, proxnewton_mock_traces=pdist, fista_end_to_end=fdist, multitaskbcd_mock_traces=mdist, groupproxnewton_mock_traces=gdist_, proxnewton_end_to_end=pedist, groupbcd_end_to_end=bedist),
                 distinct_nontrivial=sum(1 for c in allc if "'obj': []" not in c[0] and "'err': True" not in c[0]),
                 samples=[dict(gramcd=cases[0][0][:500]), dict(groupbcd=bc[0][0][:500])])
 
@@ -793,10 +890,13 @@ def merge_corr(a, b_):
     return out
 
 
-if __name__ == "__main__" and len(__import__("sys").argv) > 3 and __import__("sys").argv[3] in ("bcd", "pn", "fista", "aa", "mt", "gpn", "pne2e"):
+if __name__ == "__main__" and len(__import__("sys").argv) > 3 and __import__("sys").argv[3] in ("bcd", "pn", "fista", "aa", "mt", "gpn", "pne2e", "bcde2e"):
     import sys, tvlib
     rng = random.Random(int(sys.argv[1]))
-    if sys.argv[3] == "pne2e":
+    if sys.argv[3] == "bcde2e":
+        cases, dist = make_bcd_e2e_cases(rng, int(sys.argv[2]))
+        r = run_e2e(cases, BCD_E2E_IMPORTS, "bcde2e", 8)
+    elif sys.argv[3] == "pne2e":
         cases, dist = make_pn_e2e_cases(rng, int(sys.argv[2]))
         r = run_e2e(cases, PN_E2E_IMPORTS, "pne2e", 8)
     elif sys.argv[3] == "pn":
